@@ -204,3 +204,209 @@ Proof.
     destruct (owed_p_after_gen _ _ _ _ _ _ _ d PI Hu) as [Hop _].
     rewrite (owed_p_ext (zero_rules p1) p1 d); [lia|reflexivity|]. simpl. rewrite map_map. reflexivity.
 Qed.
+
+(** ** DestroyPool *)
+Lemma destroy_inv s who pid s' rw : inv s -> destroy s who pid = Done s' rw -> inv s'.
+Proof.
+  intros I H. destruct (destroy_Done _ _ _ _ _ H) as (p & Hg & _ & _ & Hex & Hr & _).
+  pose proof (not_expired_in_queue _ _ _ I Hg Hex) as Hq.
+  destruct (refund_inv _ _ _ _ _ I Hg Hq Hr) as [I' _]. exact I'.
+Qed.
+
+(** ** EndBlocker *)
+Lemma in_insert_sorted x a l : In x (insert_sorted a l) <-> x = a \/ In x l.
+Proof.
+  induction l as [|y l IH]; simpl; [intuition|].
+  destruct (a <=? y); simpl; [intuition|]. rewrite IH. intuition.
+Qed.
+
+Lemma in_sort_z x l : In x (sort_z l) <-> In x l.
+Proof.
+  unfold sort_z. induction l as [|a l IH]; simpl; [tauto|]. rewrite in_insert_sorted, IH. intuition.
+Qed.
+
+Lemma NoDup_insert_sorted a l : ~ In a l -> NoDup l -> NoDup (insert_sorted a l).
+Proof.
+  induction l as [|y l IH]; simpl; intros Hni Hnd.
+  - constructor; [intros []|constructor].
+  - destruct (a <=? y).
+    + constructor; [simpl; exact Hni|exact Hnd].
+    + inversion Hnd as [|? ? Hy Hl]; subst. constructor.
+      * rewrite in_insert_sorted. intros [->|Hi]; [apply Hni; left; reflexivity|contradiction].
+      * apply IH; [intros Hi; apply Hni; right; exact Hi|exact Hl].
+Qed.
+
+Lemma NoDup_sort_z l : NoDup l -> NoDup (sort_z l).
+Proof.
+  unfold sort_z. induction 1 as [|a l Ha Hl IH]; simpl; [constructor|].
+  apply NoDup_insert_sorted; [|exact IH]. fold (sort_z l). rewrite in_sort_z. exact Ha.
+Qed.
+
+Lemma in_due s pid : In pid (due s) <-> In (height s, pid) (queue s).
+Proof.
+  unfold due. rewrite in_sort_z, in_map_iff. split.
+  - intros [[e p'] [Hs Hin]]. simpl in Hs. subst p'. apply filter_In in Hin. destruct Hin as [Hin He]. simpl in He.
+    apply Z.eqb_eq in He. subst. exact Hin.
+  - intros Hin. exists (height s, pid). split; [reflexivity|]. apply filter_In. split; [exact Hin|simpl; apply Z.eqb_refl].
+Qed.
+
+Lemma NoDup_due s : NoDup (queue s) -> NoDup (due s).
+Proof.
+  intros Hnd. unfold due. apply NoDup_sort_z. induction Hnd as [|[e p'] l Ha Hl IH]; simpl; [constructor|].
+  destruct (Z.eqb_spec e (height s)) as [->|Hne]; simpl; [|exact IH].
+  constructor; [|exact IH]. intros Hin. apply in_map_iff in Hin. destruct Hin as [[e2 p2] [Hs Hin]]. simpl in Hs. subst p2.
+  apply filter_In in Hin. destruct Hin as [Hin He]. simpl in He. apply Z.eqb_eq in He. subst. contradiction.
+Qed.
+
+Lemma end_block_one_inv s pid : inv s -> In (height s, pid) (queue s) ->
+  inv (end_block_one s pid) /\ height (end_block_one s pid) = height s
+  /\ queue (end_block_one s pid) = dequeue (queue s) (height s, pid).
+Proof.
+  intros I Hin. apply in_queue_true in Hin. destruct (i_qwf _ I _ _ Hin) as (p & Hg & He).
+  unfold end_block_one. rewrite Hg. destruct (refund s pid p) as [s' ok] eqn:Er. simpl.
+  rewrite <- He in Hin. destruct (refund_inv _ _ _ _ _ I Hg Hin Er) as (I' & Hh & Hq). split; [exact I'|]. split; [exact Hh|]. rewrite Hq, He. reflexivity.
+Qed.
+
+Lemma end_block_fold l : forall s, inv s -> NoDup l -> (forall pid, In pid l -> In (height s, pid) (queue s)) ->
+  let s' := fold_left end_block_one l s in
+  inv s' /\ height s' = height s
+  /\ (forall x, In x (queue s') <-> In x (queue s) /\ ~ (fst x = height s /\ In (snd x) l)).
+Proof.
+  induction l as [|pid l IH]; simpl; intros s I Hnd Hdue.
+  - split; [exact I|]. split; [reflexivity|]. intros x. tauto.
+  - inversion Hnd as [|? ? Hni Hnd']; subst.
+    destruct (end_block_one_inv s pid I (Hdue pid (or_introl eq_refl))) as (I1 & Hh1 & Hq1).
+    specialize (IH (end_block_one s pid) I1 Hnd').
+    assert (forall pid', In pid' l -> In (height (end_block_one s pid), pid') (queue (end_block_one s pid))) as Hdue'.
+    { intros pid' Hin. rewrite Hh1, Hq1. apply in_dequeue. split; [apply Hdue; right; exact Hin|].
+      intros Heq. inversion Heq; subst. contradiction. }
+    destruct (IH Hdue') as (I2 & Hh2 & Hq2). split; [exact I2|]. split; [lia|].
+    intros [e p']. rewrite Hq2, Hq1, in_dequeue, Hh1. simpl. split.
+    + intros [[Hin Hne] Hno]. split; [exact Hin|]. intros [He [Hp|Hp]].
+      * subst. apply Hne. reflexivity.
+      * apply Hno. auto.
+    + intros [Hin Hno]. split; [split; [exact Hin|]|].
+      * intros Heq. inversion Heq; subst. apply Hno. auto.
+      * intros [He Hp]. apply Hno. auto.
+Qed.
+
+Lemma pool_inv_mono h p : pool_inv h p -> pool_inv (h + 1) p.
+Proof.
+  intros PI. constructor;
+    [exact (pi_sum _ _ PI)|exact (pi_farmers _ _ PI)|exact (pi_rules _ _ PI)|exact (pi_rule _ _ PI)|exact (pi_denoms _ _ PI)
+    |pose proof (pi_last _ _ PI); lia|exact (pi_started _ _ PI)| |exact (pi_creator _ _ PI)].
+  intros Hfr. apply (pi_fresh _ _ PI). lia.
+Qed.
+
+Lemma next_block_inv s : inv s -> inv (step_state s NextBlock).
+Proof.
+  intros I. unfold step_state, exec_step. simpl.
+  destruct (end_block_fold (due s) s I (NoDup_due _ (i_qnd _ I)) (fun pid H => proj1 (in_due s pid) H)) as (I' & Hh & Hq).
+  fold (end_block s) in *. set (s' := end_block s) in *.
+  assert (forall e pid, in_queue (queue s') (e, pid) = true -> e <> height s') as Hnone.
+  { intros e pid Hin He. apply in_queue_true in Hin. apply Hq in Hin. destruct Hin as [Hin Hno]. apply Hno. simpl.
+    split; [lia|]. apply in_due. rewrite Hh in He. subst. exact Hin. }
+  constructor; simpl.
+  - eapply Forall_impl; [|exact (i_pools _ I')]. intros p PI. exact (pool_inv_mono _ _ PI).
+  - exact (i_ids _ I').
+  - exact (i_escrow _ I').
+  - exact (i_solv _ I').
+  - intros pid p Hg Hin. destruct (i_sched _ I' _ _ Hg Hin) as [Hle Hc]. split; [|exact Hc].
+    pose proof (Hnone _ _ Hin). lia.
+  - intros pid p Hg Hin. pose proof (i_unq _ I' _ _ Hg Hin). lia.
+  - exact (i_qwf _ I').
+  - exact (i_qnd _ I').
+  - pose proof (i_height _ I'). lia.
+Qed.
+
+(** ** CreatePool *)
+Lemma min_interval_ge c l : forall iv, Forall (fun ap => c <= Z.quot (fst ap) (snd ap)) l -> min_interval l = Some iv -> c <= iv.
+Proof.
+  induction l as [|[a pb] l IH]; simpl; intros iv Hall H; [discriminate|].
+  inversion Hall as [|? ? Ha Hl]; subst. simpl in Ha. destruct (min_interval l) as [j|] eqn:E.
+  - inversion H; subst. specialize (IH j Hl eq_refl). lia.
+  - inversion H; subst. exact Ha.
+Qed.
+
+Lemma deduct_fee_bal b who b1 : deduct_fee b who = Some b1 -> who <> FARM -> who <> COLL ->
+  forall d, bal b1 FARM d = bal b FARM d /\ bal b1 COLL d = bal b COLL d.
+Proof.
+  unfold deduct_fee. set (tax := dec_truncate_int (dec_mul (dec_of_int creation_fee) tax_rate)).
+  destruct (send b who FARM STAKE creation_fee) as [l1|] eqn:E1; [|discriminate].
+  destruct (send l1 FARM FEEC STAKE tax) as [l2|] eqn:E2; [|discriminate].
+  intros E3 HwF HwC d.
+  destruct (send_bal _ _ _ _ _ _ E1) as [_ H1]. destruct (send_bal _ _ _ _ _ _ E2) as [_ H2]. destruct (send_bal _ _ _ _ _ _ E3) as [_ H3].
+  rewrite !H3, !H2, !H1. split.
+  - rewrite (moved_from FARM BURN) by discriminate. rewrite (moved_from FARM FEEC) by discriminate.
+    rewrite (moved_to who FARM) by exact HwF. destruct (d =? STAKE); lia.
+  - rewrite (moved_other COLL FARM BURN) by discriminate. rewrite (moved_other COLL FARM FEEC) by discriminate.
+    rewrite (moved_other COLL who FARM) by (try discriminate; congruence). lia.
+Qed.
+
+Lemma quot_mul_le a pb iv : 0 <= a -> 0 < pb -> iv <= Z.quot a pb -> pb * iv <= a.
+Proof.
+  intros Ha Hpb Hiv. rewrite Z.quot_div_nonneg in Hiv by lia.
+  pose proof (Z.mul_div_le a pb Hpb). nia.
+Qed.
+
+Lemma create_inv s who lpt start editable rules s' rw :
+  inv s -> actor who -> create_pool s who lpt start editable rules = Done s' rw -> inv s'.
+Proof.
+  intros I Hact H. pose proof Hact as (HwF & HwC & _).
+  destruct (create_Done _ _ _ _ _ _ _ _ H) as (b1 & b2 & iv & Hsorted & Hrules & Hne & Hstart & Hfee & Hsend & Hmin & _ & ->).
+  pose proof (i_height _ I) as Hh.
+  set (id := seq s + 1). set (e := start + iv).
+  set (p0 := mkPool who start e 0 lpt 0 editable (new_rules rules) []).
+  assert (get id (pools s) = None) as Hnone.
+  { destruct (get id (pools s)) as [q|] eqn:Eg; [|reflexivity]. apply get_Some_in_keys in Eg.
+    pose proof (i_ids _ I) as Hids. rewrite Forall_forall in Hids. specialize (Hids _ Eg). unfold id in Hids. lia. }
+  assert (forall x pid', In (x, pid') (queue s) -> pid' <> id) as Hqid.
+  { intros x pid' Hin ->. apply in_queue_true in Hin. destruct (i_qwf _ I _ _ Hin) as (q & Hq & _). congruence. }
+  assert (0 <= iv) as Hiv.
+  { eapply (min_interval_ge 0); [|exact Hmin]. rewrite Forall_map. eapply Forall_impl; [|exact Hrules].
+    intros [[d t] pb] Hb. simpl. apply Z.quot_pos; lia. }
+  assert (Forall (fun r => r_pb r * iv <= r_rem r) (new_rules rules)) as Hcovd.
+  { destruct (min_interval_Some _ _ Hmin) as [_ Hall]. rewrite Forall_map in Hall. unfold new_rules. rewrite Forall_map.
+    rewrite Forall_forall in Hall, Hrules. apply Forall_forall. intros [[d t] pb] Hin. specialize (Hall _ Hin). specialize (Hrules _ Hin).
+    simpl in *. apply quot_mul_le; lia. }
+  assert (pool_inv (height s) p0) as PI0.
+  { constructor; simpl.
+    - reflexivity.
+    - constructor.
+    - destruct rules; [congruence|discriminate].
+    - unfold new_rules. rewrite Forall_map. eapply Forall_impl; [|exact Hrules]. intros [[d t] pb] Hb. unfold rule_ok. simpl. lia.
+    - unfold new_rules. rewrite map_map. apply sorted_strict_NoDup.
+      erewrite map_ext; [exact Hsorted|]. intros [[d t] pb]. reflexivity.
+    - lia.
+    - lia.
+    - intros _. unfold new_rules. rewrite Forall_map. apply Forall_forall. intros [[d t] pb] _. reflexivity.
+    - exact Hact. }
+  destruct (send_many_bal _ _ _ _ _ Hsend) as [_ Hb2].
+  pose proof (deduct_fee_bal _ _ _ Hfee HwF HwC) as Hb1.
+  constructor; simpl.
+  - apply Forall_vals_set; [exact (i_pools _ I)|exact PI0].
+  - apply Forall_forall. intros x Hx. destruct (keys_set_in _ _ _ _ Hx) as [->|Hin]; [lia|].
+    pose proof (i_ids _ I) as Hids. rewrite Forall_forall in Hids. specialize (Hids _ Hin). lia.
+  - intros d. rewrite (escrow_set_new _ _ _ d Hnone). rewrite Hb2. destruct (Hb1 d) as [-> _]. rewrite (i_escrow _ I d).
+    rewrite (moved_many_to who FARM) by exact HwF. rewrite pool_contrib_eq. simpl.
+    assert (csum (map (fun '(d0, t, _) => (d0, t)) rules) d = rule_sum r_rem (new_rules rules) d) as ->.
+    { unfold csum, rule_sum, new_rules. rewrite !map_map. f_equal. apply map_ext. intros [[d0 t] pb]. reflexivity. }
+    destruct (lpt =? d); lia.
+  - intros d. rewrite (owed_set_new _ _ _ d Hnone). rewrite Hb2. destruct (Hb1 d) as [_ ->].
+    rewrite (moved_many_other COLL who FARM) by (try discriminate; congruence).
+    assert (owed_p d p0 = 0) as -> by reflexivity. pose proof (i_solv _ I d). lia.
+  - intros pid' p' Hg' Hin. apply in_queue_true in Hin. apply in_enqueue in Hin.
+    destruct (Z.eq_dec pid' id) as [->|Hne'].
+    + rewrite get_set_same in Hg'. inversion Hg'; subst p'. simpl. split; [unfold e; lia|].
+      unfold covered. simpl. replace (e - Z.max start 0) with iv by (unfold e; lia). exact Hcovd.
+    + rewrite get_set_other in Hg' by exact Hne'. destruct Hin as [Hin|Heq]; [|inversion Heq; contradiction].
+      apply in_queue_true in Hin. exact (i_sched _ I _ _ Hg' Hin).
+  - intros pid' p' Hg' Hin. apply in_queue_false in Hin. destruct (Z.eq_dec pid' id) as [->|Hne'].
+    + rewrite get_set_same in Hg'. inversion Hg'; subst p'. simpl in Hin. exfalso. apply Hin. apply in_enqueue. right. reflexivity.
+    + rewrite get_set_other in Hg' by exact Hne'. apply (i_unq _ I _ _ Hg'). apply in_queue_false. intros Hi. apply Hin. apply in_enqueue. left. exact Hi.
+  - intros e' pid' Hin. apply in_queue_true in Hin. apply in_enqueue in Hin. destruct Hin as [Hin|Heq].
+    + pose proof (Hqid _ _ Hin) as Hne'. apply in_queue_true in Hin. rewrite get_set_other by exact Hne'. exact (i_qwf _ I _ _ Hin).
+    + inversion Heq; subst. exists p0. rewrite get_set_same. split; reflexivity.
+  - apply NoDup_enqueue. exact (i_qnd _ I).
+  - exact Hh.
+Qed.
